@@ -10,6 +10,7 @@ func init() {
 	verifRegister("VerifC01_KNum", VerifC01_KNum)
 	verifRegister("VerifC01_KNum3", VerifC01_KNum3)
 	verifRegister("VerifC01_KCmp", VerifC01_KCmp)
+	verifRegister("VerifC01_KMinMax", VerifC01_KMinMax)
 	verifRegister("VerifC01_ECore", VerifC01_ECore)
 	verifRegister("VerifC01_EArgs", VerifC01_EArgs)
 	verifRegister("VerifC01_KStable", VerifC01_KStable)
@@ -160,6 +161,60 @@ func VerifC01_KNum3() {
 }
 
 func VerifC01_KNum3_Setup() { c01Setup() }
+
+func VerifC01_KMinMax_Setup() { c01Setup() }
+
+// max / min of one to three operands (int64 | float64, NaN aside): the result IS one of the arguments
+// (same kind, same value -- no promotion, no rounding) and no argument is larger (smaller) under the
+// language's own order (ints exactly, mixed operands after promotion).  Which of two numerically
+// equal operands of different kinds is returned is left open by the reference ("the largest of the
+// given numeric arguments") and is not asserted.
+func VerifC01_KMinMax() {
+	env := c01Setup()
+	isMax := vndBool("max")
+	n := 1 + vConcInt(vndChoice("n", vParam("maxn", 3)))
+	names := []string{"a", "b", "c"}[:n]
+	ops := make([]c01Num, n)
+	for i, nm := range names {
+		ops[i] = c01Operand(env, nm, false)
+	}
+	op := "min"
+	if isMax {
+		op = "max"
+	}
+	r := env.LoadString("mm", "("+op+" "+strings.Join(names, " ")+")")
+	vObserve("op", op)
+	vAssert(r.Type == lisp.LInt || r.Type == lisp.LFloat, "max / min of numbers is a number: "+outcome(r))
+	same := false
+	for _, o := range ops {
+		if o.kind == 0 {
+			same = vOr(same, vAnd(r.Type == lisp.LInt, r.Int == o.i))
+		} else {
+			same = vOr(same, vAnd(r.Type == lisp.LFloat, r.Float == o.f))
+		}
+	}
+	vAssert(same, "the result is one of the arguments, kind and value unchanged")
+	less := func(x, y c01Num) bool {
+		if x.kind == 0 && y.kind == 0 {
+			return x.i < y.i
+		}
+		return x.fl() < y.fl()
+	}
+	res := c01Num{kind: 0, i: r.Int}
+	if r.Type == lisp.LFloat {
+		res = c01Num{kind: 1, f: r.Float}
+	}
+	for _, o := range ops {
+		if isMax {
+			vAssert(!less(res, o), "no argument is larger than (max ...)")
+		} else {
+			vAssert(!less(o, res), "no argument is smaller than (min ...)")
+		}
+	}
+	bad := env.LoadString("mm", "("+op+" a \"s\")")
+	vAssert(bad.Type == lisp.LError && !lisp.IsInternalPanic(bad), "a non-number is an ordinary error")
+	vCover("end")
+}
 
 // comparison of mixed operands after promotion; unary minus; zero-argument identities
 func VerifC01_KCmp() {
